@@ -29,6 +29,8 @@ func c22ParseVal(s string) sk.Val {
 }
 
 // c22LoadWitness rebuilds shard specs from a replay file written by c22Report.
+var c22ReplayQ *c22Query
+
 func c22LoadWitness(path string) (query string, specs []c22ShardSpec, err error) {
 	b, err := os.ReadFile(path)
 	if err != nil {
@@ -55,6 +57,7 @@ func c22LoadWitness(path string) (query string, specs []c22ShardSpec, err error)
 		}
 		specs = append(specs, sp)
 	}
+	c22ReplayQ = rec.Witness.Q
 	q := rec.Witness.MinQuery
 	if q == "" {
 		q = rec.Witness.Query
@@ -85,6 +88,21 @@ func TestC22Replay(t *testing.T) {
 			for _, w := range b {
 				fmt.Printf("  batch %d: %s{%s} t=%d %v\n", bi, w.Meas, c22TagString(w.Tags), w.T, w.FStr)
 			}
+		}
+	}
+	if c22ReplayQ != nil {
+		m := c22NewModel()
+		for _, s := range specs {
+			for _, b := range s.Batches {
+				for _, w := range b {
+					m.Put(w)
+				}
+			}
+		}
+		cl, d, exp := c22Check(st, m, c22ReplayQ)
+		fmt.Printf("REFERENCE for %s\n  ambiguous=%q class=%q\n  %s\n", c22ReplayQ.String(), exp.Ambiguous, cl, d)
+		for _, s := range exp.Series {
+			fmt.Printf("  want %s{%s} optional=%v %s\n", s.Name, c22TagString(s.Tags), s.Optional, c22FmtGroups(s.Groups))
 		}
 	}
 	qs := []string{q}
